@@ -59,6 +59,12 @@ class Svc(Protocol):
     def fail(self, x: int) -> int: ...
     def prod(self) -> Stream[PS]: ...
     def exch(self) -> Stream[ES]: ...
+    # methods with a sizeable parameter on the stream routes, and names that begin with / equal the name of the
+    # health endpoint (route-exemption look-alikes), used by C17
+    def health_check(self, data: bytes) -> bytes: ...
+    def prodp(self, pad: bytes) -> Stream[PS]: ...
+    def healthz(self, pad: bytes) -> Stream[PS]: ...
+    def health(self, pad: bytes) -> Stream[PS]: ...
 
 
 class Impl:
@@ -75,6 +81,22 @@ class Impl:
 
     def prod(self) -> Stream[PS]:
         self.calls.append(("prod",))
+        return Stream(output_schema=OUT, state=PS())
+
+    def health_check(self, data: bytes) -> bytes:
+        self.calls.append(("health_check", data))
+        return data[:8]
+
+    def prodp(self, pad: bytes) -> Stream[PS]:
+        self.calls.append(("prodp", pad))
+        return Stream(output_schema=OUT, state=PS())
+
+    def healthz(self, pad: bytes) -> Stream[PS]:
+        self.calls.append(("healthz", pad))
+        return Stream(output_schema=OUT, state=PS())
+
+    def health(self, pad: bytes) -> Stream[PS]:
+        self.calls.append(("health", pad))
         return Stream(output_schema=OUT, state=PS())
 
     def exch(self) -> Stream[ES]:
